@@ -34,7 +34,7 @@ extern "C" void harness_c01_pairs()
 extern "C" void harness_c01_cross()
 {
     int ta = (int)verif_choice("ta", T_COUNT), tb = (int)verif_choice("tb", T_COUNT);
-    verif_assume(ta != tb);
+    verif_assume(verif_param("bothorders", 0) ? ta != tb : ta < tb); // eq is checked to be symmetric in harness_c01_pairs
     RCP<const Basic> a = build(ta, "a"), b = build(tb, "b");
     if (eq(*a, *b)) {
         bool known = ((ta == T_ADD && tb == T_ADD2) || (ta == T_ADD2 && tb == T_ADD)) ? false : false;
